@@ -126,7 +126,9 @@ R(a, b) == <<RQ(a, 1), RQ(b, 1)>>
 \* point kinds: 1..Generic generic; then corners by name
 CornerNames == <<"zero_rho", "zero_v", "zero_w", "rho_max", "rho_crit", "ctrl0", "ctrl1inf", "high_demand",
                  "congested", "free", "mixed_zero", "low_speed">>
-PointKind(p) == IF p <= Generic THEN "generic" ELSE Tab(CornerNames, p - Generic)
+PointKind(p) == IF p <= Generic THEN "generic"
+                ELSE IF Family = "neutral" THEN Tab(<<"ctrl1inf", "congested", "ctrl1inf", "free">>, p - Generic)
+                ELSE Tab(CornerNames, p - Generic)
 
 \* value of one input slot of net under point (key, kind)
 SlotValue(net, key, kind, slot) ==
@@ -145,7 +147,7 @@ SlotValue(net, key, kind, slot) ==
                [] kind = "congested" -> U(100, 150)
                [] kind = "free" -> U(1, 10)
                [] kind = "mixed_zero" -> IF coin = 0 THEN Zero ELSE U(2, 110)
-               [] OTHER -> IF neg THEN U(-40, 110) ELSE U(2, 110))
+               [] OTHER -> IF neg THEN U(-30, 110) ELSE U(2, 110))
        [] t = "v" ->
             (CASE kind = "zero_v" -> Zero
                [] kind = "congested" -> U(0, 15)
@@ -204,6 +206,25 @@ PointJson(pt) ==
    u |-> [vctrl |-> [l \in DOMAIN pt.u.vctrl |-> SSeq(pt.u.vctrl[l])], o |-> [o \in DOMAIN pt.u.o |-> S(pt.u.o[o])]],
    d |-> [o |-> [o \in DOMAIN pt.d.o |-> S(pt.d.o[o])], dest |-> [q \in DOMAIN pt.d.dest |-> S(pt.d.dest[q])]]]
 
+\* C18: the uncontrolled twin of a case.  At the point kind "ctrl1inf" every control is neutral (speed limits
+\* infinite, metering rates one, desired flows unbounded) and the twin swaps every controlled element for its
+\* plain counterpart: the two must evolve identically.  At other points only the links are made plain:
+\* finite limits may only lower next speeds, and leave everything else untouched.
+TwinKind(k) == CASE k = "ramp_in" -> "ramp_out" [] k = "ramp_out" -> "ramp_in" [] k = "simp_limited" -> "ramp_out" [] OTHER -> k
+TwinOf(net, pt, kind) ==
+  LET neutral == kind = "ctrl1inf"
+      tnet == [net EXCEPT !.links = [l \in DOMAIN net.links |-> [net.links[l] EXCEPT !.ctl = FALSE, !.vsl = {}, !.alpha = Zero]],
+                          !.origins = [o \in DOMAIN net.origins |->
+                                         IF neutral THEN [net.origins[o] EXCEPT !.kind = TwinKind(@)] ELSE net.origins[o]]]
+      tu == [vctrl |-> [l \in {} |-> <<>>],
+             o |-> [o \in Queued(net) |->
+                      IF ~neutral THEN pt.u.o[o]
+                      ELSE CASE net.origins[o].kind = "simp_limited" -> One
+                             [] net.origins[o].kind = "mainstream" -> pt.x.v[OLink(net, o)][1]
+                             [] OTHER -> pt.u.o[o]]]
+  IN [net |-> NetJson(tnet), u |-> [vctrl |-> [l \in {} |-> <<>>], o |-> [o \in DOMAIN tu.o |-> S(tu.o[o])]],
+      expect |-> IF neutral THEN "equal" ELSE "le"]
+
 PointsPer == Generic + Corners
 Total == Len(Shapes) * Variants * PointsPer
 CaseAt(i) ==     \* i in 0..Total-1
@@ -213,12 +234,14 @@ CaseAt(i) ==     \* i in 0..Total-1
       net == NetOf(Shapes[si], k + Seed)
       kind == PointKind(p)
       key == <<Seed, si, k, p>>
-      pt == PointJson(PointOf(net, key, kind))
+      rawpt == PointOf(net, key, kind)
+      pt == PointJson(rawpt)
       opts == IF Family = "opts" THEN OptsOf(HashMod(<<key, "opts">>, 64)) ELSE NoOpts
   IN [id |-> Family \o "-s" \o ToString(si) \o "-k" \o ToString(k) \o "-p" \o ToString(p), src |-> "tlc",
       shape |-> si, variant |-> k, point |-> kind,
       net |-> NetJson(net), par |-> ParJson(ParOf(k + Seed)), opts |-> opts, x |-> pt.x, u |-> pt.u, d |-> pt.d,
-      valid_in_model |-> ValidNet(net)]
+      valid_in_model |-> ValidNet(net),
+      twin |-> IF Family = "neutral" THEN TwinOf(net, rawpt, kind) ELSE [expect |-> "none"]]
 
 VARIABLE i
 Init == i = 0
